@@ -185,7 +185,8 @@ class NBGen:
         if depth >= 3 or c < 0.45:
             return self.scalar()
         if c < 0.7:
-            return {k: self.value(depth + 1) for k in r.sample(["a", "b", "c", "k", "list", "obj", "2024", "0", "k 1"], r.randrange(0, 4))}
+            # (member names include ones that other languages' objects inherit: constructor, toString, valueOf, ...)
+            return {k: self.value(depth + 1) for k in r.sample(["a", "b", "c", "k", "list", "obj", "2024", "0", "k 1", "constructor", "toString", "valueOf", "hasOwnProperty"], r.randrange(0, 4))}
         if c < 0.8:   # list of lists
             return [[self.scalar() for _ in range(r.randrange(0, 3))] for _ in range(r.randrange(0, 3))]
         if c < 0.9:   # list of objects
